@@ -7,7 +7,7 @@ RULE = ('pairs by angle relation x magnitude relation with |b| around 1e-10 (0, 
         'Angle::project on angle pairs; project_to_dimension for k and k+4n up to 2^40; project_to_angle. non-trivial = owned op result differs from its operands')
 TRUSTED = TRUSTED_COMMON
 ASSUMPTIONS = ASSUME_COMMON + ['libm cos (and sin/atan2 through Geonum subtraction) enter as the model parameter L']
-S3_LEGS = ['projection magnitude |a||cos delta| and sign choice; proj + rej = a; rejection orthogonal to b; Pythagoras; project_to_dimension / project_to_angle / Angle::project values: predicates against mpmath']
+S3_LEGS = ['projection magnitude and sign (C11_project_value, C11_project_signed), length-free value, to-angle value, rejection orthogonality (C11_reject_orthogonal) are theorems under cos_acc / sin_acc; proj + rej = a, Pythagoras and project_to_dimension at high dimension are decided by predicates against mpmath only']
 
 def generate(rng, tier):
     n = 260 if tier == 'quick' else 8000
